@@ -58,6 +58,55 @@ def replicateM {α : Type} : Nat → Prog α → Prog (List α)
   | 0, _ => pure []
   | n+1, p => p.bind (fun a => (replicateM n p).bind (fun as => pure (a :: as)))
 
+/-- Accumulator form of `replicateM` (linear time; the compiler uses it via `replicateM_eq_fast`). -/
+def replicateAcc {α : Type} (p : Prog α) : Nat → List α → Prog (List α)
+  | 0, acc => pure acc.reverse
+  | n+1, acc => p.bind (fun a => replicateAcc p n (a :: acc))
+
+def replicateFast {α : Type} (n : Nat) (p : Prog α) : Prog (List α) := replicateAcc p n []
+
+theorem bind_assoc {α β γ : Type} (p : Prog α) (f : α → Prog β) (g : β → Prog γ) :
+    (p.bind f).bind g = p.bind (fun a => (f a).bind g) := by
+  induction p with
+  | pure a => rfl
+  | fail => rfl
+  | panic => rfl
+  | read n k ih => simp only [bind]; congr; funext b; exact ih b
+  | readByte k ih => simp only [bind]; congr; funext b; exact ih b
+  | descend k ih => simp only [bind]; congr; funext b; exact ih b
+  | ascend k ih => simp only [bind]; congr; funext b; exact ih b
+  | alloc n k ih => simp only [bind]; congr; funext b; exact ih b
+  | bulk sz c k ih => simp only [bind]; congr; funext b; exact ih b
+  | rawBytes n k ih => simp only [bind]; congr; funext b; exact ih b
+
+theorem replicateAcc_eq {α : Type} (p : Prog α) (n : Nat) (acc : List α) :
+    replicateAcc p n acc = (replicateM n p).bind (fun as => pure (acc.reverse ++ as)) := by
+  induction n generalizing acc with
+  | zero => simp [replicateAcc, replicateM, bind]
+  | succ n ih =>
+    simp only [replicateAcc, replicateM, bind_assoc, ih]
+    congr; funext a
+    congr; funext as
+    simp [bind]
+
+theorem bind_pure_id {α : Type} (p : Prog α) : p.bind pure = p := by
+  induction p with
+  | pure a => rfl
+  | fail => rfl
+  | panic => rfl
+  | read n k ih => simp only [bind]; congr; funext b; exact ih b
+  | readByte k ih => simp only [bind]; congr; funext b; exact ih b
+  | descend k ih => simp only [bind]; congr; funext b; exact ih b
+  | ascend k ih => simp only [bind]; congr; funext b; exact ih b
+  | alloc n k ih => simp only [bind]; congr; funext b; exact ih b
+  | bulk sz c k ih => simp only [bind]; congr; funext b; exact ih b
+  | rawBytes n k ih => simp only [bind]; congr; funext b; exact ih b
+
+@[csimp] theorem replicateM_eq_fast : @replicateM = @replicateFast := by
+  funext α n p
+  simp only [replicateFast, replicateAcc_eq, List.reverse_nil, List.nil_append]
+  exact (bind_pure_id _).symm
+
 /-- Decode with each decoder of a list in turn (tuples, struct fields). -/
 def sequence {α : Type} : List (Prog α) → Prog (List α)
   | [] => pure []
@@ -160,10 +209,49 @@ def run {σ α : Type} (I : InputOps σ) : Prog α → σ → Res α × σ
 
 /-! ## Input implementations -/
 
+/-- Split off exactly `n` bytes (walks `n` cells only; `none` when fewer are available). -/
+def takeExactAux : Nat → Bytes → Bytes → Option (Bytes × Bytes)
+  | 0, s, acc => some (acc.reverse, s)
+  | _+1, [], _ => none
+  | n+1, b :: s, acc => takeExactAux n s (b :: acc)
+
+def takeExact (n : Nat) (s : Bytes) : Option (Bytes × Bytes) := takeExactAux n s []
+
+theorem takeExactAux_eq : ∀ (n : Nat) (s acc : Bytes),
+    takeExactAux n s acc = if n > s.length then none else some (acc.reverse ++ s.take n, s.drop n)
+  | 0, s, acc => by simp [takeExactAux]
+  | n+1, [], acc => by simp [takeExactAux]
+  | n+1, b :: s, acc => by
+    simp only [takeExactAux, takeExactAux_eq n s (b :: acc), List.length_cons, List.reverse_cons,
+      List.append_assoc, List.singleton_append, List.take_succ_cons, List.drop_succ_cons]
+    by_cases h : n > s.length
+    · have : n + 1 > s.length + 1 := by omega
+      simp [h, this]
+    · have : ¬ n + 1 > s.length + 1 := by omega
+      simp [h, this]
+
+theorem takeExact_eq (n : Nat) (s : Bytes) :
+    takeExact n s = if n > s.length then none else some (s.take n, s.drop n) := by
+  simp [takeExact, takeExactAux_eq]
+
+/-- `read(&mut [u8; n])` on a slice: all `n` bytes or an error with the slice untouched. -/
+def sliceRead (n : Nat) (s : Bytes) : Res Bytes × Bytes :=
+  match takeExact n s with
+  | some (a, r) => (.ok a, r)
+  | none => (.err, s)
+
+theorem sliceRead_eq (n : Nat) (s : Bytes) :
+    sliceRead n s = if n > s.length then (.err, s) else (.ok (s.take n), s.drop n) := by
+  unfold sliceRead
+  rw [takeExact_eq]
+  by_cases h : n > s.length
+  · simp [h]
+  · simp [h]
+
 /-- `impl Input for &[u8]`. -/
 def sliceInput : InputOps Bytes where
   remainingLen s := (.ok (some s.length), s)
-  read n s := if n > s.length then (.err, s) else (.ok (s.take n), s.drop n)
+  read n s := sliceRead n s
   -- default `read_byte`: `read(&mut [0u8; 1])`
   readByte s := match s with
     | [] => (.err, s)
@@ -176,7 +264,9 @@ def sliceInput : InputOps Bytes where
     reader: on a short read the bytes that were available are consumed (`IoReader`). -/
 def ioInput : InputOps Bytes where
   remainingLen s := (.ok none, s)
-  read n s := if n > s.length then (.err, []) else (.ok (s.take n), s.drop n)
+  read n s := match takeExact n s with
+    | some (a, r) => (.ok a, r)
+    | none => (.err, [])
   readByte s := match s with
     | [] => (.err, s)
     | b :: rest => (.ok b, rest)
@@ -187,14 +277,14 @@ def ioInput : InputOps Bytes where
 /-- `BytesCursor` of `decode_from_bytes`: a slice-like cursor plus the zero-copy override. -/
 def bytesCursorInput : InputOps Bytes where
   remainingLen s := (.ok (some s.length), s)
-  read n s := if n > s.length then (.err, s) else (.ok (s.take n), s.drop n)
+  read n s := sliceRead n s
   readByte s := match s with
     | [] => (.err, s)
     | b :: rest => (.ok b, rest)
   descend s := (.ok (), s)
   ascend s := s
   onAlloc _ s := (.ok (), s)
-  rawBytes := some (fun n s => if n > s.length then (.err, s) else (.ok (s.take n), s.drop n))
+  rawBytes := some sliceRead
 
 /-- `CountedInput` (`src/counted_input.rs`): state = inner state × counter (u64, saturating). -/
 def countedInput {σ : Type} (I : InputOps σ) : InputOps (σ × Nat) where
